@@ -213,6 +213,7 @@ var badPrefixes = []string{
 	"00701214",                           // version 0, length 20
 	"015512",                             // truncated
 	"01",                                 // truncated
+	"0155",                               // truncated (ends on a varint boundary)
 	"",                                   // empty
 	"0155920020",                         // over-long varint for the hash code
 	"810055" + "1220",                    // over-long varint for the version
